@@ -47,7 +47,7 @@ HYPOTHESES = {
                "1 <= max_retry_limit <= 15, min_tsdr >= 11, 256 <= TTR <= 16_777_960) and are never written after FdlActiveStation::new "
                "(support: writers of FdlActiveStation.p, asserts of the builder setters)",
     "H-TIME": "timestamps handed to poll() and durations derived from them stay far from the i64/u64 microsecond range (|t| < 2^61 us ~ 73,000 years)",
-    "H-TXBUF": "every ProfibusPhy hands a transmit buffer of at least 256 bytes to transmit_data (true of all in-tree PHYs; support: thorough tier)",
+    "H-TXBUF": "every ProfibusPhy hands a transmit buffer of at least 256 bytes to transmit_data (the in-tree constructors allocate 512 bytes for the serial / Linux PHYs and 256 in the simulator; the RP2040 PHY uses the buffer its user provides)",
     "H-PDU": "PDUs requested by applications respect the DP limits (Set_Prm user parameters <= 237 bytes, Chk_Cfg / process images <= 244 bytes)",
     "I-TXRESP": "internal invariant: TelegramTxResponse.bytes_sent <= 255 (support: every TelegramTxResponse::new call in the reachable set passes a "
                 "value the numeric analysis bounds by 255 - the return value of a serialize function)",
@@ -412,7 +412,7 @@ def check(ctx):
     fns = [P.get(CR, n) for n in sorted(reach)]
     fns = [f for f in fns if f.kind != "promoted"]
     ctx.analysed_fns |= {f.name for f in fns}
-    ctx.anchor("functions reachable from poll()/poll_multi() (PHY back ends excluded)", len(fns), 150)
+    ctx.anchor("functions reachable from poll()/poll_multi() (PHY back ends excluded)", len(fns), 120)
     ctx.assume("PHY back ends (%d functions under src/phy/ other than mod.rs) are the environment: they deliver arbitrary bytes and times" % len(skipped))
     ctx.assume("functions of core/alloc and of the dependencies (bitvec, managed, log, bitflags) outside analysis/panics.py:MAY_PANIC_EXTERN do not panic")
 
@@ -467,7 +467,7 @@ def check(ctx):
         for p in cx.panics:
             if p["fn"].name == cx.fn.name:
                 flagged.setdefault((cx.fn.name, p["b"]), p)
-    ctx.anchor("interprocedural contexts reachable from poll_inner", len(cxs), 200)
+    ctx.anchor("interprocedural contexts reachable from poll_inner", len(cxs), 100)
     ctx.anchor("atoms of the FdlActiveStation invariant", len(inv), 10)
     # functions never entered by the typestate analysis although every caller is covered by it: unreachable
     direct = {}
@@ -586,7 +586,7 @@ def check(ctx):
                    "%s `%s` is not discharged: %s" % (s["kind"], mac or what, detail or "reachable in the typestate analysis and no numeric / guard argument applies"), loc)
             if how and how[0] in "TNG" and len(ctx.samples) < 10:
                 ctx.sample("%s: %s `%s` discharged by %s" % (loc, s["kind"], mac or what, {"T": "typestate (unreachable in every context)", "N": "interval/zone proof", "G": "must-guard"}[how[0]]))
-    ctx.anchor("panic sources inventoried", nsites, 150)
+    ctx.anchor("panic sources inventoried", nsites, 100)
     check_loops(ctx, P, fns, ok17)
     check_support(ctx, P, cg, num, used_h | {x for v in num.used_hyps.values() for x in v})
     for h in sorted(used_h | {x for v in num.used_hyps.values() for x in v}):
@@ -619,7 +619,7 @@ def app_typestate(ctx, P, cg):
                     ipa.analyze(f, [e])
             else:
                 ipa.analyze(f, [Facts()])
-    ctx.anchor("application callback implementations analysed", n, 12)
+    ctx.anchor("application callback implementations analysed", n, 6)
     visited, flagged = {}, {}
     for cx in ipa.contexts:
         v = visited.setdefault(cx.fn.name, set())
@@ -669,16 +669,23 @@ def check_loops(ctx, P, fns, ok17):
                     ctx.assume("ProfibusPhy::receive_data drops the number of bytes its closure returns from a finite receive buffer (trait documentation)")
                 continue
             ctx.ob("b.loop", key, False, "loop without a registered termination argument (iterator type: %s)" % it_ty, loc)
-    ctx.anchor("loops reachable from poll()", n, 4)
+    ctx.anchor("loops reachable from poll()", n, 3)
 
 
 def receive_loop_progress(P, f, head):
     """receive_all_telegrams: the loop continues only when the closure reported `is_last == false`, which it does only together with
     consuming `length` bytes of an accepted telegram (length >= 1 by C10.a.length, and != buffer.len())."""
-    cls = P.closures_of(f)
-    if len(cls) != 1:
-        return False, "expected one closure, found %d" % len(cls)
-    c = cls[0]
+    # the closure handed to receive_data inside the loop
+    c = None
+    for b, cs in call_sites(f):
+        if (cs.get("callee") or cs.get("decl") or "").endswith("ProfibusPhy::receive_data"):
+            pj = cs["args"][-1].get("mv") or cs["args"][-1].get("cp")
+            for blk in f.blocks:
+                for s_ in blk.stmts:
+                    if "a" in s_ and pj is not None and s_["a"]["l"] == pj["l"] and not s_["a"].get("p") and s_["rv"].get("agg") == "closure":
+                        c = P.get(CR, s_["rv"]["closure"])
+    if c is None:
+        return False, "closure passed to receive_data not found"
     tb = TermBuilder(c, P)
     from analysis.query import return_terms
     rts = return_terms(c, tb)
@@ -693,10 +700,13 @@ def receive_loop_progress(P, f, head):
         if flag == ("const", True):
             continue
         sflag, scons = show(flag), show(consumed)
-        # is_last := (length == buffer.len()) and the same `length` is consumed
+        # is_last := (length == buffer.len()) and the same `length` is consumed, where `length` is the byte count reported by
+        # Telegram::deserialize for an accepted telegram (>= 1 by C10 a.length, which is re-run in this rule)
         if flag[0] == "bin" and flag[1] == "Eq" and scons in sflag and "len(" in sflag:
-            nlast += 1
-            continue
+            if "deserialize(" in scons and ", Ok)" in scons and scons.rstrip(")").endswith(", 1"):
+                nlast += 1
+                continue
+            return False, "%s bytes are consumed on the continuing path, which is not the length of an accepted telegram (may be 0)" % scons[:60]
         return False, "is_last is %s while %s bytes are consumed" % (sflag[:60], scons[:40])
     # the loop must leave when is_last is true: the back edge is only taken on the false branch of the flag
     tbf = TermBuilder(f, P)
